@@ -38,7 +38,8 @@ def trace_record(case, res):
         'w': abstract.abstract_world(case['world'], o, case['ref']),
         'o': abstract.abstract_opts(o),
         'ev': abstract.abstract_events(res['events']),
-        'rep': abstract.abstract_report(res, cli=(case['mode'] == 'cli')),
+        'rep': abstract.abstract_report(res, cli=(case['mode'] == 'cli'),
+                                        world=case['world']),
     }
 
 
